@@ -35,3 +35,8 @@ def Ext.max : Ext → Ext → Ext
   | .fin a, .fin b => .fin (Max.max a b)
 
 end NASim.PyRt
+
+namespace NASim.PyRt
+/-- `math.ceil(a / b)` for naturals (the true division is exact enough for every size a double represents) -/
+def ceilDiv (a b : Nat) : Nat := (a + b - 1) / b
+end NASim.PyRt
